@@ -1,7 +1,7 @@
 """C06 - Linear / categorical weight constraints (P3 P4 A4 X1 W1 W3 W4 O2)."""
 import ast
 
-from ..model import (AnalysisError, FunctionInfo, dotted, norm_text,
+from ..model import (AnalysisError, FunctionInfo, expand_aug, dotted, norm_text,
                      names_read, const_value, is_none, call_args)
 from ..cfg import CFG, structural_guards
 from ..rules import roles
@@ -436,6 +436,7 @@ def _norm(prog, res):
   pr = prog.function('linear_lib.project')
   good = False
   for st in ast.walk(pr.node):
+    st = expand_aug(st)
     if isinstance(st, ast.Assign) and dotted(st.targets[0]) == 'weights' and \
         isinstance(st.value, ast.BinOp) and isinstance(st.value.op, ast.Div) \
         and dotted(st.value.left) == 'weights' and dotted(
